@@ -123,8 +123,12 @@ func vC05LifeReport(cfg rmntypes.RemoteConfig, dest cciptypes.ChainSelector, off
 	if err != nil {
 		return cciptypes.RMNReport{}, false
 	}
-	return cciptypes.RMNReport{ReportVersionDigest: cfg.RmnReportVersion, DestChainSelector: dest, RmnRemoteContractAddress: cfg.ContractAddress,
-		OfframpAddress: offramp, RmnHomeContractConfigDigest: cfg.ConfigDigest, LaneUpdates: lu}, true
+	// the byte slices are COPIED: the report is kept in the registry of signed reports for the rest of the history, while the
+	// environment's addresses move in place (offAddr[1]++); an aliased slice would make the registry show the address of a later
+	// round for a signature made over the address of this one
+	return cciptypes.RMNReport{ReportVersionDigest: cfg.RmnReportVersion, DestChainSelector: dest,
+		RmnRemoteContractAddress: append([]byte{}, cfg.ContractAddress...),
+		OfframpAddress:           append([]byte{}, offramp...), RmnHomeContractConfigDigest: cfg.ConfigDigest, LaneUpdates: lu}, true
 }
 
 type vC05LifeHome struct {
@@ -307,7 +311,7 @@ func TestVerif_C05_life(t *testing.T) {
 		enabled := !r.Chance(1, 7)
 		max := vPick(r, []uint64{1, 2, 3})
 		tree := vPick(r, []uint64{2, 4, 9})
-		arrive := vPick(r, []int{0, 1, 2, 2})  // new messages per chain and round: up to this many (0 = the lanes are quiet)
+		arrive := vPick(r, []int{0, 1, 2, 2})    // new messages per chain and round: up to this many (0 = the lanes are quiet)
 		txOdds := vPick(r, []int{0, 1, 2, 2, 3}) // a generated report reaches the chain with probability txOdds/3 per round
 		// ---- which aspects of the environment move in this history: one, two, or all
 		var allowed []string
@@ -322,7 +326,7 @@ func TestVerif_C05_life(t *testing.T) {
 		case 4:
 			profile = "none"
 		default:
-			allowed = []string{vPick(r, []string{"signers", "signers", "signers", "signers", "f", "f", "version", "digest", "digest", "contract", "repver", "vanish", "nodes", "offaddr", "onaddr"})}
+			allowed = []string{vPick(r, []string{"signers", "signers", "signers", "signers", "f", "f", "version", "digest", "digest", "contract", "repver", "vanish", "nodes", "offaddr", "offaddr", "onaddr"})}
 		}
 		if profile == "one" {
 			profile = allowed[0]
@@ -414,8 +418,10 @@ func TestVerif_C05_life(t *testing.T) {
 		// a separate, unjudged observer computes the true roots for the RMN side and the Byzantine leader
 		side := NewProcessor(3, idToPeer, mocks.NullLogger, pluginconfig.CommitOffchainConfig{}, vC05KnownDest, hc, rd, vC05IdHasher{},
 			ocr3types.ReportingPluginConfig{F: 1, N: 4, OracleID: 3}, plugincommon.NewChainSupport(mocks.NullLogger, hc, idToPeer, 3, vC05KnownDest), nil, nil, nil)
-		var agreedHist []rmntypes.RemoteConfig // every RMN config a previous outcome carried so far
+		var agreedHist []rmntypes.RemoteConfig  // every RMN config a previous outcome carried so far
 		var pastBundles []*rmn.ReportSignatures // every bundle on which some oracle observed roots so far
+		var pastMoveAt []int                    // value of moveCtr when that bundle was accepted
+		moveCtr := 0                            // how many times the environment moved so far in this history
 		prev := Outcome{}
 		rounds := r.Range(8, 16)
 		buildingSeen := 0
@@ -438,6 +444,7 @@ func TestVerif_C05_life(t *testing.T) {
 						continue
 					}
 					moved += "," + a
+					moveCtr++
 					switch a {
 					case "nodes":
 						net.nodeEpoch++
@@ -570,6 +577,18 @@ func TestVerif_C05_life(t *testing.T) {
 					}
 					foreign := []byte{0xF0, 0xF1}
 					skind := vPick(r, []string{"current", "current", "current", "removed", "removed", "removed", "future", "future", "mixed", "foreign", "few", "none", "replayed", "replayed"})
+					// an accepted bundle of an earlier round, replayed after the environment moved: sampled on purpose (2 in 5 of the
+					// building rounds in which such a bundle exists), it is what a memo of verification results would let through
+					var stale []int
+					for i, at := range pastMoveAt {
+						if at < moveCtr {
+							stale = append(stale, i)
+						}
+					}
+					afterMove := false
+					if st == BuildingReport && len(stale) > 0 && r.Chance(2, 5) {
+						skind, afterMove = "replayed", true
+					}
 					if skind == "replayed" && len(pastBundles) == 0 {
 						skind = "current"
 					}
@@ -634,11 +653,55 @@ func TestVerif_C05_life(t *testing.T) {
 					rs.Signatures = net.sign(keys, rep)
 					if skind == "replayed" { // signatures of a bundle that was accepted in an earlier round, around this round's lanes or verbatim
 						old := pastBundles[r.Intn(len(pastBundles))]
+						verbatim := r.Bool()
+						if afterMove {
+							old = pastBundles[stale[r.Intn(len(stale))]]
+							verbatim = r.Chance(2, 3)
+							skind = "replayed-after-move"
+						}
 						rs.Signatures = old.Signatures
 						rkind = "-"
-						if r.Bool() {
+						if verbatim {
 							rs.LaneUpdates = old.LaneUpdates
 							lkind = "replayed"
+						}
+						// what makes the replayed signatures stale NOW: which parts of the report they were made over differ from
+						// the report of this round, and whether their keys are still signers of the agreed config
+						var diff []string
+						if len(old.Signatures) > 0 && old.Signatures[0] != nil && len(old.Signatures[0].S) == 32 {
+							var tag [32]byte
+							copy(tag[:], old.Signatures[0].S)
+							was, known := net.reg[tag]
+							now, _ := vC05LifeReport(agreed, vC05KnownDest, offAddr, rs.LaneUpdates)
+							if known {
+								if was.ReportVersionDigest != now.ReportVersionDigest {
+									diff = append(diff, "repver")
+								}
+								if !bytes.Equal(was.RmnRemoteContractAddress, now.RmnRemoteContractAddress) {
+									diff = append(diff, "contract")
+								}
+								if !bytes.Equal(was.OfframpAddress, now.OfframpAddress) {
+									diff = append(diff, "offramp")
+								}
+								if was.RmnHomeContractConfigDigest != now.RmnHomeContractConfigDigest {
+									diff = append(diff, "digest")
+								}
+								a, b := cciptypes.RMNReport{LaneUpdates: was.LaneUpdates}, cciptypes.RMNReport{LaneUpdates: now.LaneUpdates}
+								if vC05LifeRepKey(a) != vC05LifeRepKey(b) {
+									diff = append(diff, "lanes")
+								}
+							}
+							for _, sg := range old.Signatures {
+								if sg != nil && len(sg.R) == 32 && !curSet[sg.R[0]] {
+									diff = append(diff, "signers")
+									break
+								}
+							}
+						}
+						if len(diff) == 0 {
+							skind += "(still-valid)"
+						} else {
+							skind += "(stale:" + strings.Join(diff, "+") + ")"
 						}
 					}
 					if r.Chance(1, 25) {
@@ -864,6 +927,7 @@ func TestVerif_C05_life(t *testing.T) {
 					"roots_out": len(out.RootsToReport), "sigs_out": len(out.RMNReportSignatures), "type_out": int(out.OutcomeType)})
 			if rootsObserved > 0 && q.RMNSignatures != nil {
 				pastBundles = append(pastBundles, q.RMNSignatures)
+				pastMoveAt = append(pastMoveAt, moveCtr)
 			}
 			if !haveOut {
 				continue // leader failed / no quorum: libocr starts another round on the same previous outcome
